@@ -648,6 +648,8 @@ def parse_run(sql, dialect, level, max_errors=3, max_nodes=None, api="parse"):
         rec["exc"] = e
     rec["trace"] = _TRACE["cur"]
     rec["sub_events"] = _TRACE["sub"]
+    root = _TRACE["root"]
+    rec["root_level_after"] = getattr(getattr(root, "error_level", None), "name", None) if root is not None else None
     _TRACE["cur"] = None
     rec["log"] = _CAP.records[before:]
     del _CAP.records[:]
@@ -671,6 +673,14 @@ def four_run_relation(sql, dialect, max_errors=3, max_nodes=None, api="parse", r
     runs = runs or {L: parse_run(sql, dialect, L, max_errors, max_nodes, api) for L in LEVELS}
     bad: list = []
     ig, wa, ra, im = (runs[L] for L in LEVELS)
+    # whatever way the run ended (returned, ParseError, an internal exception escaping a speculative sub-parse), the parser
+    # object must be back at the level it was created with (try_parse_restores_level / C15 try_parse_restores_level_all_exits)
+    for L, r in runs.items():
+        la = r.get("root_level_after")
+        if la is not None and la != L:
+            bad.append(("level-not-restored", f"parser.error_level is {la} after a {L} run that ended with {r['status']}"))
+    if bad:
+        return bad, runs
     if any(r["status"] == "TokenError" for r in runs.values()):
         # did the TOKENIZER reject the text before any parser ran (the same for every level, nothing to compare), or did a
         # tokenizer started INSIDE the parse (the hint sub-parser re-tokenizes the comment) raise through the running parser?
@@ -1049,6 +1059,9 @@ CORPUS = [
     "SELECT DATE_ADD(a, 1), DATE_SUB(b, c)",
     "SELECT /*+ */ 1",
     "SELECT a:b:c::INT, x -> 'k' ->> FROM t",
+    "SELECT a FROM t LIMIT VAR_MAP(1)",
+    "SELECT a FROM t, DATE_ADD(1)",
+    "SELECT a FROM t, HASHBYTES(x); SELECT a FROM t WHERE",
 ]
 
 
